@@ -311,6 +311,11 @@ trait SocksWriter: AsyncWriteExt + Sized + Unpin {
     async fn write_authentication_message(&mut self, auth: &Authentication) -> Result<(), Error> {
         let buf = match auth {
             Authentication::UsernamePassword(username, password) => {
+                // each of the fields is preceded by a one-octet length [RFC 1929 section 2]
+                if username.len() > u8::MAX as usize || password.len() > u8::MAX as usize {
+                    return Err(Error::Protocol("Too long username or password".to_string()));
+                }
+
                 let mut buf = MaxStackSmallVec::with_capacity(
                     std::mem::size_of_val(&USERNAME_PASSWORD_AUTHENTICATION_VER)
                         + std::mem::size_of::<u8>()
